@@ -502,6 +502,7 @@ NOPS = len(OPS)
 BOUNDS['quick'] = BOUNDS['quick'] % NOPS
 PIPE_NEEDS_NONEMPTY = {15}          # accumulate without seed is undefined on an empty input
 S2SET = H.P('s2set') or list(range(NOPS))
+S3SET = H.P('s3set') or list(range(NOPS))
 
 
 def pipe_ref(sels, c, args):
@@ -556,7 +557,7 @@ def h_pipe(c: List[int], s2: int, s3: int, i1: int, k1: int, i2: int, k2: int, i
     """
     pre: len(c) <= N and s2 in S2SET
     pre: 0 <= i1 <= len(c) + min(1, H.P('imargin', 2)) and 0 <= i2 <= len(c) + H.P('imargin', 2)
-    pre: (0 <= s3 < NOPS and 0 <= i3 <= len(c) + 2) if H.P('depth', 2) >= 3 else (s3 == 0 and i3 == 0 and k3 == 0)
+    pre: (s3 in S3SET and 0 <= i3 <= len(c) + H.P('imargin', 2)) if H.P('depth', 2) >= 3 else (s3 == 0 and i3 == 0 and k3 == 0)
     pre: H.fresh(c, s2, s3, i1, k1, i2, k2, i3, k3)
     post: _
     """
@@ -636,7 +637,7 @@ def conditions(tier, seed):
             cs = CASES[cid]
             alias = cid in seen_cases           # same payload under a second name (filter, map, limit, reduce)
             seen_cases.add(cid)
-            combos = lam_combos(cs, every=not quick)
+            combos = lam_combos(cs, every=False)
             has_lam = bool(cs['lams'])
             for cn, lams in enumerate(combos):
                 if quick:
@@ -659,11 +660,14 @@ def conditions(tier, seed):
                         out.append(cond_for(key, cs, lams, 'text', n, nd, nones, margin, t, emax=1))
                 else:
                     n = 3 if (has_lam or cs['cost'] >= 2 or 'd' in cs['uses']) else 4
-                    nones = 2 if cs['cost'] < 3 else 1
+                    nones = 2 if cs['cost'] < 2 else 1
+                    margin = 2 if cs['cost'] < 3 else 1
                     if cs['api'] is not None:
-                        out.append(cond_for(key, cs, lams, 'api', n, 2, nones, 2, 600))
+                        out.append(cond_for(key, cs, lams, 'api', n, 2, nones, margin, 900))
                     if cs['text'] and (cs['api'] is None or cn == 0 or has_lam):
-                        out.append(cond_for(key, cs, lams, 'text', min(n, 3), 2, 1, 2, 600))
+                        # YAQL text costs 2-5x the call API per path: len 2 (3 where there is no call-API variant)
+                        tn = 3 if (cs['api'] is None and cs['cost'] < 2) else 2
+                        out.append(cond_for(key, cs, lams, 'text', tn, 2 if cs['cost'] < 3 else 1, 1, margin, 900))
     # listed findings: probes restricted to the class
     if K_UNPACK in KNOWN:
         out.append({'name': 'probe[unpack-lazy-first-element]', 'func': 'h_fn', 'timeout': 90, 'kind': 'probe',
@@ -676,7 +680,7 @@ def conditions(tier, seed):
                               'nones': 0, 'probe_key': K_INSERT},
                     'bounds': 'insert(position < 0, value) on a one-shot iterator, len <= 2'})
     # laws
-    lt = 200 if quick else 600
+    lt = 200 if quick else 900
     laws = [('law_order[asc]', 'law_order', {'desc': False}, 2), ('law_order[desc]', 'law_order', {'desc': True}, 2),
             ('law_group[gtk]', 'law_group', {'key': 'gtk'}, 2), ('law_group[id]', 'law_group', {'key': 'id'}, 2),
             ('law_lists[reverse]', 'law_lists', {'part': 'reverse'}, 2),
@@ -693,7 +697,7 @@ def conditions(tier, seed):
         if not quick or cn % 2 == seed % 2:
             laws.append(('law_thenby[%s,%s]' % (f1, f2), 'law_thenby', {'first': f1, 'then': f2}, 2))
     for name, func, param, n in laws:
-        n = n if quick else n + 1
+        n = n if (quick or func in ('law_sets', 'law_dict')) else n + 1
         out.append({'name': name, 'func': func, 'timeout': lt, 'param': dict(param, n=n),
                     'bounds': 'model-free law, symbolic int list(s) len <= %d (+ null where meaningful; dictionary keys '
                               'in a small range), tuple and one-shot iterator' % n})
@@ -710,17 +714,24 @@ def conditions(tier, seed):
                                   'arguments and lambda constants; tuple and one-shot iterator; every intermediate '
                                   'consumed once; call API' % (OPS[s1][0], [OPS[x][0] for x in sixth])})
     else:
+        thirds = [list(range(t, NOPS, 3)) for t in range(3)]
+        small = [0, 1, 2, 3, 4, 6, 9, 12]      # where select skip take distinct append insert orderBy
         for s1 in range(NOPS):
-            for hn, half in enumerate(halves):
-                for mode in ('api', 'text'):
-                    out.append({'name': 'pipe2[%s|%s|%s]' % (OPS[s1][0], 'even' if hn == 0 else 'odd', mode),
-                                'func': 'h_pipe', 'timeout': 600,
-                                'param': {'s1': s1, 'depth': 2, 'mode': mode, 'n': 2, 's2set': half},
-                                'bounds': '$c.%s.<op2>: op2 by symbolic selector (half of the %d-operator table); '
-                                          'len($c)<=2; %s' % (OPS[s1][0], NOPS, mode)})
+            for tn, third in enumerate(thirds):
+                out.append({'name': 'pipe2[%s|third%d|api]' % (OPS[s1][0], tn), 'func': 'h_pipe', 'timeout': 900,
+                            'param': {'s1': s1, 'depth': 2, 'mode': 'api', 'n': 2, 's2set': third},
+                            'bounds': '$c.%s.<op2>: op2 by symbolic selector among %s; len($c)<=2; call API'
+                                      % (OPS[s1][0], [OPS[x][0] for x in third])})
+            sixth = list(range(s1 % 6, NOPS, 6))
+            out.append({'name': 'pipe2[%s|sixth%d|text]' % (OPS[s1][0], s1 % 6), 'func': 'h_pipe', 'timeout': 900,
+                        'param': {'s1': s1, 'depth': 2, 'mode': 'text', 'n': 2, 's2set': sixth, 'imargin': 1},
+                        'bounds': '$c.%s.<op2>: op2 by symbolic selector among %s; len($c)<=2; YAQL text built from '
+                                  'the selectors' % (OPS[s1][0], [OPS[x][0] for x in sixth])})
             out.append({'name': 'pipe3[%s|*|*]' % OPS[s1][0], 'func': 'h_pipe', 'timeout': 900,
-                        'param': {'s1': s1, 'depth': 3, 'mode': 'api', 'n': 1},
-                        'bounds': '3-operator pipelines, second and third operator by symbolic selectors, len($c)<=1'})
+                        'param': {'s1': s1, 'depth': 3, 'mode': 'api', 'n': 1, 's2set': small, 's3set': small,
+                                  'imargin': 1},
+                        'bounds': '3-operator pipelines $c.%s.<op2>.<op3>, op2 and op3 by symbolic selectors among %s, '
+                                  'len($c)<=1' % (OPS[s1][0], [OPS[x][0] for x in small])})
     return out
 
 
